@@ -34,6 +34,7 @@ def run(unit, prop, values, outdir):
     if not spec:
         return None
     src = os.path.join(VERIF, 'replay', spec[0] + '.cpp')
+    os.makedirs(outdir, exist_ok=True)
     exe = os.path.join(outdir, spec[0])
     repo = driver.REPO
     cmd = ['g++', '-std=c++17', '-O1', '-g', '-fsanitize=address,undefined', '-fno-sanitize-recover=undefined',
